@@ -71,14 +71,19 @@ Section Run.
     revert s. induction es as [|[k v] es IH]; intros s; simpl; [reflexivity|]. now rewrite IH.
   Qed.
 
-  Lemma SelectMatch_ok p (t : tree) :
-    Inv t -> exists t', SelectMatch cmp i p t = Ok t' /\ inorder t' = filter (holds p) (inorder t).
+  (** the selection is a table of its own: it satisfies the invariant, too *)
+  Lemma SelectMatch_inv p (t : tree) :
+    Inv t -> exists t', SelectMatch cmp i p t = Ok t' /\ inorder t' = filter (holds p) (inorder t) /\ Inv t'.
   Proof.
     intros HI. unfold SelectMatch. rewrite traverse_vfold by discriminate. rewrite vfold_select. cbn [fst].
-    destruct (put_fold (holds p) (olist VLR t) Leaf (inv_leaf R)) as [t' [E1 [E2 _]]].
-    exists t'. split; [exact E1|]. rewrite E2. rewrite inorder_leaf.
+    destruct (put_fold (holds p) (olist VLR t) Leaf (inv_leaf R)) as [t' [E1 [E2 I2]]].
+    exists t'. split; [exact E1|]. split; [|exact I2]. rewrite E2. rewrite inorder_leaf.
     apply (s_put_all_filter cmp TO); [now apply (inv_sorted R)|]. apply olist_perm. discriminate.
   Qed.
+
+  Lemma SelectMatch_ok p (t : tree) :
+    Inv t -> exists t', SelectMatch cmp i p t = Ok t' /\ inorder t' = filter (holds p) (inorder t).
+  Proof. intros HI. destruct (SelectMatch_inv p t HI) as [t' [E1 [E2 _]]]. eauto. Qed.
 
   Lemma vfold_partition (p : K -> V -> bool) (es : amap) (a b : res tree) :
     vfold (res tree * res tree)
@@ -91,17 +96,23 @@ Section Run.
     change (holds p (k, v)) with (p k v). destruct (p k v); cbn [negb]; now rewrite IH.
   Qed.
 
+  Lemma PartitionMatch_inv p (t : tree) :
+    Inv t -> exists ta tb, PartitionMatch cmp i p t = (Ok ta, Ok tb) /\
+                           inorder ta = filter (holds p) (inorder t) /\
+                           inorder tb = filter (fun e => negb (holds p e)) (inorder t) /\ Inv ta /\ Inv tb.
+  Proof.
+    intros HI. unfold PartitionMatch. rewrite traverse_vfold by discriminate. rewrite vfold_partition. cbn [fst].
+    destruct (put_fold (holds p) (olist VLR t) Leaf (inv_leaf R)) as [ta [A1 [A2 A3]]].
+    destruct (put_fold (fun e => negb (holds p e)) (olist VLR t) Leaf (inv_leaf R)) as [tb [B1 [B2 B3]]].
+    exists ta, tb. rewrite A1, B1. split; [reflexivity|]. rewrite A2, B2, inorder_leaf.
+    split; [|split; [|auto]]; apply (s_put_all_filter cmp TO); try (now apply (inv_sorted R)); apply olist_perm; discriminate.
+  Qed.
+
   Lemma PartitionMatch_ok p (t : tree) :
     Inv t -> exists ta tb, PartitionMatch cmp i p t = (Ok ta, Ok tb) /\
                            inorder ta = filter (holds p) (inorder t) /\
                            inorder tb = filter (fun e => negb (holds p e)) (inorder t).
-  Proof.
-    intros HI. unfold PartitionMatch. rewrite traverse_vfold by discriminate. rewrite vfold_partition. cbn [fst].
-    destruct (put_fold (holds p) (olist VLR t) Leaf (inv_leaf R)) as [ta [A1 [A2 _]]].
-    destruct (put_fold (fun e => negb (holds p e)) (olist VLR t) Leaf (inv_leaf R)) as [tb [B1 [B2 _]]].
-    exists ta, tb. rewrite A1, B1. split; [reflexivity|]. rewrite A2, B2, inorder_leaf.
-    split; apply (s_put_all_filter cmp TO); try (now apply (inv_sorted R)); apply olist_perm; discriminate.
-  Qed.
+  Proof. intros HI. destruct (PartitionMatch_inv p t HI) as (ta & tb & E1 & E2 & E3 & _). eauto. Qed.
 
   Lemma ask_ok (t : tree) q :
     Inv t -> abstract_query q = true -> query_allowed q = true ->
@@ -148,6 +159,41 @@ Section Run.
     forallb abstract_op ops = true -> forallb op_allowed ops = true ->
     run cmp eqv i ops = map Ok (spec_run cmp eqv ops).
   Proof. intros. unfold run, spec_run. rewrite run_from_ok; auto. apply (inv_leaf R). Qed.
+
+  (** the history continues ON the table returned by SelectMatch / PartitionMatch *)
+  Theorem selection_continues h p h2 ops :
+    forallb allowed h = true -> forallb allowed h2 = true ->
+    forallb abstract_op ops = true -> forallb op_allowed ops = true ->
+    exists t t' t'', build cmp i h = Ok t /\ SelectMatch cmp i p t = Ok t' /\
+      build_from cmp i t' h2 = Ok t'' /\ Inv t'' /\
+      inorder t'' = s_build_from cmp (filter (holds p) (s_build cmp h)) h2 /\
+      run_from cmp eqv i t'' ops = map Ok (s_run_from cmp eqv (inorder t'') ops).
+  Proof.
+    intros H1 H2 H3 H4.
+    destruct (build_from_ok h Leaf (inv_leaf R) H1) as [t [E1 [E2 I1]]].
+    destruct (SelectMatch_inv p t I1) as [t' [F1 [F2 I2]]].
+    destruct (build_from_ok h2 t' I2 H2) as [t'' [G1 [G2 I3]]].
+    exists t, t', t''. split; [exact E1|]. split; [exact F1|]. split; [exact G1|]. split; [exact I3|].
+    split; [rewrite G2, F2, E2; reflexivity|]. now apply run_from_ok.
+  Qed.
+
+  Theorem partition_continues h p (second : bool) h2 ops :
+    forallb allowed h = true -> forallb allowed h2 = true ->
+    forallb abstract_op ops = true -> forallb op_allowed ops = true ->
+    exists t ta tb t'', build cmp i h = Ok t /\ PartitionMatch cmp i p t = (Ok ta, Ok tb) /\
+      build_from cmp i (if second then tb else ta) h2 = Ok t'' /\ Inv t'' /\
+      inorder t'' = s_build_from cmp (filter (fun e => if second then negb (holds p e) else holds p e) (s_build cmp h)) h2 /\
+      run_from cmp eqv i t'' ops = map Ok (s_run_from cmp eqv (inorder t'') ops).
+  Proof.
+    intros H1 H2 H3 H4.
+    destruct (build_from_ok h Leaf (inv_leaf R) H1) as [t [E1 [E2 I1]]].
+    destruct (PartitionMatch_inv p t I1) as (ta & tb & F1 & F2 & F3 & Ia & Ib).
+    assert (Ix : Inv (if second then tb else ta)) by (destruct second; assumption).
+    destruct (build_from_ok h2 _ Ix H2) as [t'' [G1 [G2 I3]]].
+    exists t, ta, tb, t''. split; [exact E1|]. split; [exact F1|]. split; [exact G1|]. split; [exact I3|].
+    split; [|now apply run_from_ok].
+    rewrite G2. destruct second; [rewrite F3|rewrite F2]; rewrite E2; reflexivity.
+  Qed.
 
   (** the table reached by a history of mutators *)
   Theorem build_ok h :
